@@ -61,6 +61,7 @@ class Tr:
         self.fname = fname
         self.ctx = ctx
         self.env = dict(env)  # name -> "Z" | "F" | "Q" | "M" (Q: a rational parameter, M: the measure string)
+        self.params = set(env)
         self.pre = []
         self.ntmp = 0
         self.guard = 0  # > 0 while translating an operand that Python may not evaluate
@@ -239,7 +240,8 @@ class Tr:
     def bind(self, node, name, ty):
         if name in RESERVED or re.fullmatch(r"tmp\d+|cost[012]", name):
             fail(self.where(node), f"the local name {name} clashes with a name of the generated text")
-        if self.env.get(name) in ("Q", "M") or (self.ctx == "pixel" and name in ("disp", "mask", "itp_coeff", "row", "col")):
+        if name in self.params or name in ("cost", "cv", "method"):
+            # (in the pixel loop a re-assigned parameter would also be carried over to the next iteration)
             fail(self.where(node), f"assignment to the parameter / array {name}")
         self.env[name] = ty
 
@@ -447,6 +449,9 @@ def method_of(path, cls, name, params):
             decos.append(d.id)
         elif isinstance(d, ast.Call) and isinstance(d.func, ast.Name):
             decos.append(d.func.id)
+            # error_model="numpy" / fastmath would change what a division by zero or a NaN comparison does
+            if d.args or any(k.arg not in ("cache", "parallel") for k in d.keywords):
+                fail(f"{path}:{d.lineno}", f"decorator arguments not supported: {ast.unparse(d)}")
         else:
             fail(f"{path}:{d.lineno}", f"decorator not supported: {ast.unparse(d)}")
     if decos != ["staticmethod", "njit"]:
@@ -478,6 +483,37 @@ def translate_method(path, short_name):
     return body, (path, f"lines {fn.lineno}-{fn.end_lineno} ({cls.name}.refinement_method)", sha1_of(seg(src, fn)))
 
 
+CALL_SITE = """
+d_min = cv.coords["disp"].data[0]
+d_max = cv.coords["disp"].data[-1]
+subpixel = cv.attrs["subpixel"]
+measure = cv.attrs["type_measure"]
+self.loop_refinement(cv["cost_volume"].data, disp["disparity_map"].data, disp["validity_mask"].data, d_min, d_max,
+                     subpixel, measure, self.refinement_method)
+"""
+
+
+def check_call_site(path, cls):
+    """subpixel_refinement(self, cv, disp) hands to the kernel: the arrays of cv / disp, the first and last disparity
+    of the cost volume, its subpixel and type_measure attributes, and the class's own refinement_method"""
+    fns = [n for n in cls.body if isinstance(n, ast.FunctionDef) and n.name == "subpixel_refinement"]
+    if len(fns) != 1 or [a.arg for a in fns[0].args.args] != ["self", "cv", "disp"]:
+        fail(f"{path}:{cls.lineno}", "subpixel_refinement(self, cv, disp) not found")
+    fn = fns[0]
+    want = ast.parse(CALL_SITE).body
+    for w in want[:4]:
+        name = w.targets[0].id
+        got = [n for n in ast.walk(fn) if isinstance(n, (ast.Assign, ast.AugAssign, ast.AnnAssign)) and any(
+            isinstance(t, ast.Name) and t.id == name and isinstance(t.ctx, ast.Store) for t in ast.walk(n))]
+        if len(got) != 1 or ast.dump(got[0]) != ast.dump(w):
+            fail(f"{path}:{fn.lineno}", f"subpixel_refinement does not set {name} as `{ast.unparse(w)}`")
+    calls = [n for n in ast.walk(fn) if isinstance(n, ast.Call) and isinstance(n.func, ast.Attribute)
+             and n.func.attr == "loop_refinement"]
+    if len(calls) != 1 or ast.dump(calls[0]) != ast.dump(want[4].value):
+        fail(f"{path}:{fn.lineno}", "subpixel_refinement does not call self.loop_refinement(cv[...].data, disp[...].data, "
+                                    "disp[...].data, d_min, d_max, subpixel, measure, self.refinement_method) exactly once")
+
+
 def translate_loop(path):
     src, tree = parse_module(path)
     check_imports(path, tree, ["cst", "np", "njit", "prange"])
@@ -486,6 +522,7 @@ def translate_loop(path):
         fail(path, f"{len(cls)} classes named AbstractRefinement")
     params = ["cv", "disp", "mask", "d_min", "d_max", "subpixel", "measure", "method"]
     fn = method_of(path, cls[0], "loop_refinement", params)
+    check_call_site(path, cls[0])
     stmts = [s for s in fn.body
              if not (isinstance(s, ast.Expr) and isinstance(s.value, ast.Constant) and isinstance(s.value.value, str))]
     if len(stmts) != 4:
